@@ -21,7 +21,7 @@ func init() {
 		Rule: "tokens.Token values handed to BasicPrivateIssuer.Verify / BatchedPrivateIssuer.Verify: honestly issued tokens, every single-bit flip of every field of each, authenticator truncated/extended/empty, every token against every other key and against the issuer of the other type, " +
 			"type changed with the authenticator recomputed by the reference (must be accepted), hostile field lengths, shifted field boundaries. Oracle: Verify returns nil iff authenticator == circl FullEvaluate(key, be16(type)||nonce||context||keyid) computed by the harness from the fields as carried. " +
 			"distinct_nontrivial = distinct (issuer type, case class, field, bit or length) keys",
-		Floors:      []string{"accepted_agree", "rejected_agree", "bitflip_rejected", "other_key_rejected", "other_type_rejected", "recomputed_accepted", "related_derivation_rejected", "issuer_consistent_after_key_object_reuse"},
+		Floors:      []string{"cancelling_differences_rejected", "accepted_agree", "rejected_agree", "bitflip_rejected", "other_key_rejected", "other_type_rejected", "recomputed_accepted", "related_derivation_rejected", "issuer_consistent_after_key_object_reuse"},
 		Assumptions: []string{"circl VOPRF FullEvaluate is the trusted reference"},
 		Run:         runC10,
 	})
@@ -248,6 +248,46 @@ func runC10(c *core.Ctx) {
 				}
 				c.Distinctf("%s:bitflip:type:%d", is.name, ti)
 				c.Exhaustive("single-bit flips of every field of each honest token")
+			}
+			// differences that cancel in a comparison which ADDS up per-word differences instead of OR-ing them: the top bit
+			// flipped in two bytes (every pair: whatever the word size and byte order, two top bits sum to zero), and word
+			// pairs whose XOR differences d, -d sum to zero (8-, 16-, 32- and 64-bit words, both byte orders)
+			if c.Next() {
+				auth := base.Authenticator
+				for i := 0; i < len(auth); i++ {
+					for j := i + 1; j < len(auth); j++ {
+						t := cloneToken(base)
+						t.Authenticator[i] ^= 0x80
+						t.Authenticator[j] ^= 0x80
+						c10Check(c, is, t, fmt.Sprintf("cancelling-difference:top-bits#%d,%d", i, j), true)
+					}
+				}
+				for _, w := range []int{1, 2, 4, 8} {
+					for _, be := range []bool{false, true} {
+						for _, dv := range []uint64{1, 3, 0x0101010101010101, 0x7fffffffffffffff} {
+							for a := 0; a+2*w <= len(auth) && a < 3*w; a += w {
+								t := cloneToken(base)
+								mask := uint64(1)<<(8*uint(w)) - 1
+								if w == 8 {
+									mask = ^uint64(0)
+								}
+								d1 := dv & mask
+								d2 := (-dv) & mask
+								for k := 0; k < w; k++ {
+									sh := uint(8 * k)
+									if be {
+										sh = uint(8 * (w - 1 - k))
+									}
+									t.Authenticator[a+k] ^= byte(d1 >> sh)
+									t.Authenticator[a+w+k] ^= byte(d2 >> sh)
+								}
+								c10Check(c, is, t, fmt.Sprintf("cancelling-difference:words-%d-be=%v", w*8, be), true)
+							}
+						}
+					}
+				}
+				c.Class("cancelling_differences_rejected")
+				c.Distinctf("%s:cancelling:%d", is.name, ti)
 			}
 			// authenticator length changes
 			if c.Next() {
